@@ -172,6 +172,45 @@ def client_parity(ctx, ncases, nops):
     return programs, disagreements
 
 
+def client_active_parity(ctx, ncases):
+    """Client vs AsyncClient with ACTIVE handlers: connect / disconnect / connect_error / event handlers
+    (functions and class-based namespaces, plain and coroutine) that, from inside, record what the client shows
+    (`connected`, `namespaces`, `get_sid`) and call its API (`emit` / `send` on the namespace being handled, on
+    another one, on one that is not connected; `disconnect()`), swallowing or re-raising what the call raises.
+    Parity only - there is no Lean model of active handlers: the two traces (handler observations, packets,
+    results / exception classes, later invocations such as `__disconnect_final`, state after every operation)
+    are compared with each other."""
+    from .. import client_cases as K
+    rng = ctx.rng
+    programs = disagreements = 0
+    distinct = set()
+    samples = []
+    for i in range(ncases):
+        case, tags = K.gen_active_case(rng)
+        d = K.parity_diff(case)
+        programs += 1
+        for t in set(tags):
+            ctx.count('client_active.' + t)
+        acts = [h['act'] for h in case['registry']['fns'] + [m for c in case['registry']['classes'] for m in c['methods']]
+                if h.get('act')]
+        for a in acts:
+            ctx.count('client_active.handler_api.' + str(a['api']) + ('.reraise' if a['reraise'] and a['api'] else ''))
+        distinct.add(K.skeleton(case) + repr(sorted(set(tags))))
+        if d is not None:
+            disagreements += 1
+            if disagreements <= 4:
+                small = K.shrink_active(case)
+                d2 = K.parity_diff(small) or d
+                ctx.violation('oracle', 'Client and AsyncClient behave differently with active handlers at op %d: '
+                              'threaded=%r asyncio=%r' % (d2[0], d2[1], d2[2]),
+                              {'kernel': 'client', 'case': K.case_json(small),
+                               'threaded': repr(d2[1]), 'asyncio': repr(d2[2])})
+        elif len(samples) < 2 and len(case['ops']) <= 6 and acts:
+            samples.append({'skeleton': K.skeleton(case), 'tags': tags, 'acts': acts[:3]})
+    return {'programs': programs, 'disagreements': disagreements, 'distinct': len(distinct), 'samples': samples,
+            'level': 'parity only (no Lean model of handlers that use the client from inside)'}
+
+
 def run(ctx):
     a = C.proof_step(ctx, ['parity itself is decided by executing the same scenarios on both families (translation validation); '
                            'the theorems cover only the source-derived tables'])
@@ -185,6 +224,10 @@ def run(ctx):
         programs += cp
         disagreements += cd
         sub['client'] = {'programs': cp, 'disagreements': cd}
+        ca = client_active_parity(ctx, ctx.scale(500, 8000))
+        programs += ca['programs']
+        disagreements += ca['disagreements']
+        sub['client_active_handlers'] = ca
     except ImportError:
         pass
     sub['by_construction'] = ('the checks of C03 (managers), C08/C09 (clients), C10 (reconnection), C19 (simple clients), '
@@ -222,10 +265,26 @@ def replay(ctx, r):
     if case.get('kernel') == 'client':
         from .. import client_cases as K
         base = K.case_from_json(case['case'])
+        if base.get('active'):
+            out = {}
+            for mode in ('threading', 'asyncio'):
+                recs = K.exec_plain(dict(base, mode=mode))
+                out[mode] = [(K.canon_impl(x), K.canon_snap_impl(x['snap'])) for x in recs]
+            for j, op in enumerate(base['ops']):
+                print('--- op %d: %s' % (j, repr(op)[:200]))
+                for mode in ('threading', 'asyncio'):
+                    print('   %-9s: %r' % (mode, out[mode][j] if j < len(out[mode]) else None))
+            d = K.parity_diff(base)
+            print('parity:', 'holds' if d is None else 'Client and AsyncClient differ at op %d' % d[0])
+            return 1 if d else 0
+        out = {}
         for mode in ('threading', 'asyncio'):
             recs, _ = K.exec_case(dict(base, mode=mode))
-            print(mode, [K.canon_impl(x) for x in recs][-3:])
-        return 0
+            out[mode] = [(K.canon_impl(x), K.canon_snap_impl(x['snap'])) for x in recs]
+            print(mode, [x[0] for x in out[mode]][-3:])
+        differ = out['threading'] != out['asyncio']
+        print('parity:', 'Client and AsyncClient differ' if differ else 'holds')
+        return 1 if differ else 0
     t1, _ = S.execute_impl('threading', case['cfg'], case['ops'], active=case.get('active', False))
     t2, _ = S.execute_impl('asyncio', case['cfg'], case['ops'], case.get('coro', False), active=case.get('active', False))
     for i, (o, a, b) in enumerate(zip(case['ops'], t1, t2)):
